@@ -41,7 +41,7 @@ impl Gen {
     }
     pub fn instr(&mut self, budget: u32, depth: u32) -> Instr {
         let leafy = depth >= 3 || budget == 0;
-        let k = if leafy { self.r.below(6) } else { self.r.below(13) };
+        let k = if leafy { self.r.below(6) } else { self.r.below(14) };
         match k {
             0 | 1 => Instr::Emit(self.tag(), self.expr()),
             2 => Instr::Notify(self.opn(), self.expr()),
@@ -76,6 +76,7 @@ impl Gen {
             }
             10 => Instr::Join(self.instrs(budget / 2, depth + 1), self.instrs(budget / 2, depth + 1)),
             11 => Instr::Select(self.instrs(budget / 2, depth + 1), self.instrs(budget / 2, depth + 1)),
+            12 => Instr::Handoff(1 + self.r.below(2) as u32, self.opn(), self.expr(), self.instrs(budget / 2, depth + 1)),
             _ => Instr::SelfWake(1 + self.r.below(2) as u32),
         }
     }
